@@ -172,6 +172,15 @@ def plan_C12(seed, tier):
             else:
                 key = f"{op}_state_{typ}_{vm}"
             params[key] = state
+        # real test parameters carry the states of the other operations too (a node gets, sets and unsets):
+        # they must not influence this operation
+        if op in ("check", "get", "set", "unset") and pick(seed, f"foreign{i}", [False, False, True]):
+            for j in range(pick(seed, f"nforeign{i}", [1, 2])):
+                other = pick(seed, f"fop{i}/{j}", [o for o in ("get", "set", "unset") if o != op])
+                typ = pick(seed, f"ftyp{i}/{j}", ["images", "vms"])
+                vm = pick(seed, f"fvm{i}/{j}", vms)
+                key = f"{other}_state_{typ}" if pick(seed, f"fform{i}/{j}", [0, 1]) else f"{other}_state_{typ}_{vm}"
+                params.setdefault(key, pick(seed, f"fst{i}/{j}", STATE_NAMES))
         mode = pick(seed, f"m1{i}", LETTERS) + pick(seed, f"m2{i}", LETTERS)
         if pick(seed, f"usemode{i}", [True, True, False]):
             params[f"{op}_mode"] = mode
